@@ -502,6 +502,17 @@ theorem checkExclusionReason_userset (m : Model) (rq : Req) (rd : RelDef)
 
 /-! ## ties to the regenerated source facts (`Gen.CheckV2`, extract/facts_checkv2.go) -/
 
+set_option maxRecDepth 200000 in
+/-- the contextual part of `specificTypeWildcard` walks the WHOLE bucket of contextual tuples and takes the
+first typed wildcard (`CheckV2.specificTypeWildcard`: `find?` over `ctxByObject`), no index-0 shortcut: the
+bucket is sorted by user and `type:*` does not sort first (ids may start with `!` `"` `$` `%` `&` `'` `(` `)`) -/
+theorem tie_specific_type_wildcard_ctx_lookup :
+    Gen.CheckV2.wildcardCtxLookup =
+      ["if ctxTuples, ok := req.GetContextualTuplesByObjectID(req.GetTupleKey().GetObject(), relation, req.GetUserType()); ok", "{",
+       "for _, ct := range ctxTuples", "{", "if tuple.IsTypedWildcard(ct.GetUser())", "{",
+       "iter = storage.NewStaticTupleKeyIterator([]*openfgav1.TupleKey{ct})", "break", "}", "}", "}"] := by
+  decide
+
 theorem tie_union_edges_loop : Gen.CheckV2.unionEdgesConds =
     ["msg.Err != nil", "msg.Res.GetAllowed()", "post:ctx.Err() != nil", "post:err != nil"] := by decide
 
